@@ -135,7 +135,7 @@ def run(ctx: Ctx, env):
             if r is None:
                 continue
             hci, fn = r
-            interp = env.interp(opaque_funcs=("odata_query.typing.typecheck",))
+            interp = env.interp(opaque_funcs=(env.func_q("odata_query.typing", "typecheck"),))
 
             def setup(it, hci=hci, fn=fn, vcls=vcls):
                 a = [NodeV("args[0]", env.kindflow.expr_kinds), NodeV("args[1]", env.kindflow.expr_kinds)]
